@@ -9,7 +9,7 @@ rsync -a /verif/lean/ $B/lean/
 for p in "$@"; do
   (cd $B/repo && git checkout -q -- . && git apply "$p") || { echo "$(basename $p): PATCH-FAILED"; continue; }
   $B/extract -repo $B/repo -out $B/lean/Generated/Facts.lean >/dev/null 2>&1
-  out=$(cd $B/lean && lake build Props.GenMisc Props.GenLoaders Props.GenHeads Props.GenTraverse Props.GenJoin Props.GenJoinTail Props.GenIterator Props.GenAppend Props.GenFetcher Props.GenCapstoneJoin Props.GenCapstoneValues Props.GenCapstoneIter Props.GenCapstoneAppend Props.GenCapstoneBounded Props.GenNewLog Props.GenCapstoneLoad Props.GenViews Props.GenCapstoneViews Props.GenCapstoneSystem Props.C19Gen 2>&1 | grep "error" | head -3 | cut -c1-200 | tr '\n' '|')
+  out=$(cd $B/lean && lake build Props.GenMisc Props.GenLoaders Props.GenHeads Props.GenTraverse Props.GenJoin Props.GenJoinTail Props.GenIterator Props.GenAppend Props.GenFetcher Props.GenCapstoneJoin Props.GenCapstoneValues Props.GenCapstoneIter Props.GenCapstoneAppend Props.GenCapstoneBounded Props.GenNewLog Props.GenCapstoneLoad Props.GenViews Props.GenCapstoneViews Props.GenCapstoneSystem Props.GenCapstoneRebuild Props.C19Gen 2>&1 | grep "error" | head -3 | cut -c1-200 | tr '\n' '|')
   if [ -z "$out" ]; then echo "$(basename $p): proofs hold"; else echo "$(basename $p): BROKEN $out"; fi
 done
 rm -rf $B
